@@ -387,6 +387,10 @@ class C01(Property):
         if wide:
             cwl += [(1, [rng.randint(0, 99) for _ in range(rng.choice([2, 10, 11, 13, 25]))]) for _ in range(4)]
             cwl += [(2, [[rng.randint(0, 99) for _ in range(rng.choice([1, 2, 11]))] for _ in range(rng.choice([1, 3, 11]))]) for _ in range(4)]
+        import shutil
+        if shutil.which("node") is None:      # the CWL documents need a JavaScript engine (InlineJavascriptRequirement)
+            ctx.notes.append("node is not on PATH: the end-to-end CWL cases were skipped")
+            cwl = []
         for levels, value in cwl:
             yield {"op": "cwl", "levels": levels, "value": value}
         # incomplete streams: the forced-gathering branch (the property's premise fails; model vs code only)
